@@ -40,6 +40,18 @@ def render_class(I, u):
     return None
 
 
+def printed_terms(I, u):
+    """(prefix, symbol, exponent) of every term str(u) prints right now."""
+    try:
+        if u.symbol:
+            return [(I.L.IdentityPrefix, u.symbol, 1)]
+        from measured import formatting
+
+        return list(formatting._unit_to_magnitude_and_terms(u)[1])
+    except Exception:
+        return []
+
+
 def resolve_like_library(L, text):
     """The library's documented resolution order for one symbol: exact symbol, then
     the shortest prefix split, then a registered name.  Returns (prefix, unit) or None."""
@@ -136,7 +148,7 @@ class C13Clauses(Clauses):
         if name == "render" and exc is None and op.get("how") == "str" and "id" in op:
             x = prepared[0][0]
             xu0 = x if op["kind"] == "unit" else x.unit
-            self.rendered[op["id"]] = (op["kind"], x, prepared[0][1], render_class(I, xu0))
+            self.rendered[op["id"]] = (op["kind"], x, prepared[0][1], render_class(I, xu0), printed_terms(I, xu0))
             return None
         if name != "parse":
             return None
@@ -146,12 +158,20 @@ class C13Clauses(Clauses):
         src = self.rendered.get(op.get("text", [None, None])[1]) if "text" in op else None
         if src is None:
             return None
-        skind, x, mx, cls_at_render = src
+        skind, x, mx, cls_at_render, terms = src
         if mx is None:
             return None
         xu = x if skind == "unit" else x.unit
-        # the class of the text as it was rendered, else of the symbol table as it is now
-        cls = cls_at_render or render_class(I, xu) or "plain"
+        # the class of the text as it was rendered; else whether the terms that were PRINTED then are
+        # ambiguous under the symbol table as it is now (the unit may have got a symbol of its own
+        # since, and other units may have taken <prefix symbol><unit symbol> as theirs)
+        cls = cls_at_render
+        if not cls:
+            for prefix, symbol, exponent in terms or ():
+                if term_ambiguous(I.L, prefix, symbol):
+                    cls = "ambiguous-text:" + ambiguous_key(I.L, prefix, symbol)
+                    break
+        cls = cls or "plain"
         I.count("C13.roundtrip.checked")
         if cls != "plain":
             I.count("C13.roundtrip.known-class:" + cls)
